@@ -52,7 +52,7 @@ impl Method for RateOfChange {
 
 	fn new(length: Self::Params, &value: &Self::Input) -> Result<Self, Error> {
 		match length {
-			0 => Err(Error::WrongMethodParameters),
+			0 | PeriodType::MAX => Err(Error::WrongMethodParameters),
 			length => Ok(Self(Window::new(length, value))),
 		}
 	}
